@@ -74,6 +74,15 @@ type Exec struct {
 	reveal      map[string]bool
 	textNames   bool
 	maxInline   int
+	subst       map[string]string // terms fixed by a split -> literal
+	preWrap     map[string]bool   // sweep: range obligations known (from the baseline) not to discharge
+}
+
+// peekName returns the name the next obligation of this kind at pos would get (text mode).
+func (x *Exec) peekName(kind string, pos token.Pos) string {
+	txt := x.V.lineText(pos)
+	key := kind + ":" + txt
+	return fmt.Sprintf("%s.%s/%s#%d", shortPkg(x.pkg), x.name, key, x.obCount[key]+1)
 }
 
 func newExec(v *Verifier, pkg, name, prefix string) *Exec {
@@ -300,6 +309,18 @@ func (x *Exec) readLoc(st *State, loc *Loc) Val {
 
 // readLocPure loads the value stored at loc without side effects on the path condition.
 func (x *Exec) readLocPure(st *State, loc *Loc) Val {
+	v := x.readLocPure0(st, loc)
+	if len(x.subst) > 0 {
+		for i, t := range v.L {
+			if lit, ok := x.subst[t]; ok {
+				v.L[i] = lit
+			}
+		}
+	}
+	return v
+}
+
+func (x *Exec) readLocPure0(st *State, loc *Loc) Val {
 	start, end, idxs, t := navigate(loc.RootT, loc.Steps)
 	rl := leavesOf(loc.RootT)
 	out := Val{Typ: t}
